@@ -120,6 +120,9 @@ func (fr *frame) prepareCall(call *ssa.CallCommon) (fn Value, args []Value) {
 		if recv.T == nil {
 			fr.w.rtPanic("invalid memory address or nil pointer dereference (method " + call.Method.Name() + " on nil interface)")
 		}
+		if rt, ok := recv.V.(rtypeVal); ok {
+			return RTypeMethod{call.Method.Name(), rt.T}, nil
+		}
 		if recv.T == stubType {
 			for _, a := range call.Args {
 				args = append(args, fr.get(a))
@@ -149,6 +152,17 @@ func (w *Worker) callValue(caller *frame, fn Value, args []Value) Value {
 		return w.callBuiltin(caller, fn, args)
 	case StubMethod:
 		return w.stubResults(fn.Sig, args)
+	case RTypeMethod:
+		switch fn.Name {
+		case "Comparable":
+			return w.TF.Bool(fn.T != nil && types.Comparable(fn.T))
+		case "String":
+			if fn.T == nil {
+				return w.mkStr("<nil>")
+			}
+			return w.mkStr(fn.T.String())
+		}
+		panic(pathAbort{"unsupported", "reflect type method " + fn.Name})
 	case NilFunc:
 		w.rtPanic("invalid memory address or nil pointer dereference (call of nil func)")
 	case Poison:
@@ -208,9 +222,11 @@ func (w *Worker) call(caller *frame, fn *ssa.Function, args []Value, env []Value
 	if w.P.Trace {
 		fmt.Fprintf(os.Stderr, "%*s-> %s\n", w.depth, "", name)
 	}
+	w.cur = fr
 	for fr.block != nil {
 		fr.run()
 	}
+	w.cur = caller
 	w.depth = fr.depth - 1
 	if w.inInit == 0 {
 		w.res.Funcs[name] += fr.nInstr
@@ -240,6 +256,7 @@ func (fr *frame) run() {
 		fr.runDefers()
 		fr.block = fr.fn.Recover
 		fr.w.depth = fr.depth
+		fr.w.cur = fr
 		if fr.block == nil {
 			// recovered, no named results: return zero values
 			fr.result = fr.w.zeroResults(fr.fn)
@@ -317,6 +334,7 @@ func (fr *frame) runDefer(d *deferred) {
 			fr.panicking = true
 			fr.panic = r
 			fr.w.depth = fr.depth
+			fr.w.cur = fr
 		}
 	}()
 	fr.w.callValue(fr, d.fn, d.args)
